@@ -322,10 +322,44 @@ func replayOnce(bin, file string, gomaxprocs int) (*record, error) {
 	}
 	_, errb, err := runWorker(bin, env, 10*time.Minute)
 	recs, rerr := readRecords(outp)
+	if len(recs) == 0 {
+		if cls := runtimeFatal(errb); cls != "" {
+			return &record{Engine: engineOfReplay(file), OK: false, Digest: "fatal", Viol: &violation{Class: "fatal:" + cls, Detail: "the Go runtime aborted the process:\n" + fatalExcerpt(errb)}}, nil
+		}
+	}
 	if rerr != nil || len(recs) != 1 {
 		return nil, fmt.Errorf("replay of %s produced no record (%v, %v): %s", file, err, rerr, tail(errb, 2000))
 	}
 	return &recs[0], nil
+}
+
+// runtimeFatal recognises, in a dead worker's stderr, the unrecoverable
+// aborts of the Go runtime that code under test can cause. Running out of
+// memory and "all goroutines are asleep" are deliberately not in the list:
+// they may as well be trouble of the machine or the harness and stay exit 2.
+func runtimeFatal(stderr []byte) string {
+	for _, line := range strings.Split(string(stderr), "\n") {
+		line = strings.TrimSpace(line)
+		for _, p := range []string{"fatal error: stack overflow", "fatal error: sync: ", "fatal error: concurrent map "} {
+			if strings.HasPrefix(line, p) {
+				return strings.TrimPrefix(line, "fatal error: ")
+			}
+		}
+	}
+	return ""
+}
+
+// fatalExcerpt returns the abort message and the first goroutine's stack.
+func fatalExcerpt(stderr []byte) string {
+	s := string(stderr)
+	i := strings.Index(s, "fatal error: ")
+	if j := strings.LastIndex(s[:max(i, 0)], "runtime: goroutine stack exceeds"); j >= 0 {
+		i = j
+	}
+	if i < 0 {
+		i = 0
+	}
+	return short(s[i:], 2500)
 }
 
 func engineOfReplay(file string) string {
@@ -430,6 +464,16 @@ func check(prop, tier string) int {
 				continue
 			}
 			next := r.first + uint64(len(r.recs))
+			if cls := runtimeFatal(r.stderr); cls != "" {
+				// The Go runtime aborted the process inside the code under test
+				// (unbounded recursion, misuse of a sync primitive, unsynchronised
+				// map access): a finding about that seed, not trouble with the
+				// machinery - provided it happens again when the seed is re-run.
+				fmt.Fprintf(os.Stderr, "worker %d aborted by the Go runtime at seed %d (%s); the seed is re-run below\n", w, next, cls)
+				all = append(all, record{Engine: spec.Engine, Seed: next, OK: false, Digest: "fatal",
+					Viol: &violation{Class: "fatal:" + cls, Detail: "the Go runtime aborted the process:\n" + fatalExcerpt(r.stderr)}})
+				continue
+			}
 			fmt.Fprintf(os.Stderr, "worker %d died (%v) while running seed %d:\n%s\n", w, r.err, next, tail(r.stderr, 3000))
 			infra = true
 		}
@@ -460,7 +504,7 @@ func check(prop, tier string) int {
 		if tape == nil {
 			tape = r.Tape
 		}
-		rf := replayFile{Property: prop, Engine: spec.Engine, Seed: r.Seed, Tier: tier, Tape: tape, Viol: r.Viol, Digest: r.Digest, Trace: r.Trace, Race: spec.Race, Pkg: spec.Pkg, BySeed: r.Digest == "stall"}
+		rf := replayFile{Property: prop, Engine: spec.Engine, Seed: r.Seed, Tier: tier, Tape: tape, Viol: r.Viol, Digest: r.Digest, Trace: r.Trace, Race: spec.Race, Pkg: spec.Pkg, BySeed: r.Digest == "stall" || r.Digest == "fatal"}
 		path := filepath.Join(verifDir, "replays", fmt.Sprintf("%s-%d.json", prop, r.Seed))
 		data, _ := json.MarshalIndent(rf, "", " ")
 		if err := os.WriteFile(path, data, 0644); err != nil {
